@@ -13,11 +13,11 @@ def orderOf : Op → List Nat
 
 /-- the flood bits are right for every tree switch: the post-condition of `_update_tree` w.r.t. `adj` -/
 def FloodOK (adj : List Link) (order : List Nat) (conns : Conns) (pv : Prev) : Prop :=
-  ∃ t, calcTree adj order = .ok t ∧ ∀ sw ∈ treeKeys t, Good adj t conns pv sw
+  ∃ t, calcTreeL adj order = .ok t ∧ ∀ sw ∈ treeKeys t, Good adj t conns pv sw
 
 /-- executable form of `FloodOK` (used for the `decide`d defect witnesses) -/
 def floodOkB (adj : List Link) (order : List Nat) (conns : Conns) (pv : Prev) : Bool :=
-  match calcTree adj order with
+  match calcTreeL adj order with
   | .error _ => false
   | .ok t => (treeKeys t).all fun sw =>
       match conns.get sw with
@@ -42,7 +42,7 @@ theorem floodOkB_of_FloodOK (adj : List Link) (order : List Nat) (conns : Conns)
     · simp [hlt]
 
 theorem handle_fixed_post (adjNow : List Link) (order : List Nat) (conns : Conns) (link : Link)
-    (acc : Prev × List PortMod × Nat) (t : List TEdge) (ht : calcTree adjNow order = .ok t) :
+    (acc : Prev × List PortMod × Nat) (t : List TEdge) (ht : calcTreeL adjNow order = .ok t) :
     ∀ sw ∈ treeKeys t, Good adjNow t conns (handleLinkEvent fixed adjNow order conns link acc).1 sw := by
   obtain ⟨pv', mods, hu⟩ := updateTree_ok adjNow order conns acc.1 t ht
   have : (handleLinkEvent fixed adjNow order conns link acc).1 = pv' := by
@@ -52,7 +52,7 @@ theorem handle_fixed_post (adjNow : List Link) (order : List Nat) (conns : Conns
   exact updateTree_post adjNow order conns acc.1 pv' mods t ht hu
 
 theorem handleAll_fixed_post (adjNow : List Link) (order : List Nat) (conns : Conns) (t : List TEdge)
-    (ht : calcTree adjNow order = .ok t) :
+    (ht : calcTreeL adjNow order = .ok t) :
     ∀ (links : List Link) (acc : Prev × List PortMod × Nat), links ≠ [] →
       ∀ sw ∈ treeKeys t, Good adjNow t conns (handleAll fixed adjNow order conns links acc).1 sw
   | [], _, h => absurd rfl h
@@ -68,7 +68,7 @@ theorem deleteLinks_fixed_prev (s : DState) (links : List Link) (order : List Na
       (handleAll fixed (keys (without s.adj links)) order s.conns links (s.prev, [], 0)).1 := rfl
 
 theorem deleteLinks_fixed_flood (s : DState) (links : List Link) (order : List Nat) (hne : links ≠ []) (t : List TEdge)
-    (ht : calcTree (keys (deleteLinks fixed s links order).1.adj) order = .ok t) :
+    (ht : calcTreeL (keys (deleteLinks fixed s links order).1.adj) order = .ok t) :
     ∀ sw ∈ treeKeys t, Good (keys (deleteLinks fixed s links order).1.adj) t (deleteLinks fixed s links order).1.conns
       (deleteLinks fixed s links order).1.prev sw := by
   rw [deleteLinks_fixed_prev, deleteLinks_conns]
@@ -79,7 +79,7 @@ theorem deleteLinks_fixed_flood (s : DState) (links : List Link) (order : List N
     `_calc_spanning_tree` returns `t` on the new adjacency, then in the new state every port below `OFPP_MAX` of every connected
     switch of the tree has flooding on iff it is a tree port or an edge port. -/
 theorem step_fixed_flood (s : DState) (op : Op) (hev : (step fixed s op).2.events ≠ []) (t : List TEdge)
-    (ht : calcTree (keys (step fixed s op).1.adj) (orderOf op) = .ok t) :
+    (ht : calcTreeL (keys (step fixed s op).1.adj) (orderOf op) = .ok t) :
     ∀ sw ∈ treeKeys t, Good (keys (step fixed s op).1.adj) t (step fixed s op).1.conns (step fixed s op).1.prev sw := by
   cases op with
   | tick dt => simp [step] at hev
